@@ -31,6 +31,19 @@ def field_assigns(b, field):
     return out
 
 
+def field_mut_borrows(b, field):
+    """`&mut <..>.field` taken in live, non-cleanup code (mem::take / mem::replace / swap write through these)"""
+    out = []
+    for bb in sorted(b.live_blocks()):
+        if b.is_cleanup(bb):
+            continue
+        for s in b.stmts(bb):
+            if 'assign' in s and s['rv']['k'] in ('ref', 'rawptr') and s['rv'].get('mut') and \
+                    any(isinstance(e, dict) and e.get('f') == field for e in s['rv']['place'].get('p', [])):
+                out.append((bb, s))
+    return out
+
+
 def run(ctx):
     failed_rule(ctx)
     header_rule15(ctx)
@@ -143,7 +156,8 @@ def typestate(ctx):
             te = try_edges(fb, enc[0][0])
             hs = field_assigns(fb, 'block_header_size')
             ct = field_assigns(fb, 'n_elements_in_block')
-            after = te is not None and bool(hs) and bool(ct) and all(fb.dominates(te[0], bb) for bb, _ in hs + ct) and te[1] is not None and all_paths_err(fb, te[1])
+            mb = field_mut_borrows(fb, 'block_header_size') + field_mut_borrows(fb, 'n_elements_in_block')
+            after = te is not None and bool(hs) and bool(ct) and all(fb.dominates(te[0], bb) for bb, _ in hs + ct + mb) and te[1] is not None and all_paths_err(fb, te[1])
             zero = all(const_int(s['rv'].get('op')) == 0 for bb, s in ct if s['rv']['k'] == 'use')
             order = all(fb.dominates(h[0], c[0]) for h in hs for c in ct)
             # only when there is something to write
